@@ -61,11 +61,7 @@ Proof. exact accepted_iff. Qed.
    certificate appended.  The repaired model leaves the state as it was. *)
 Theorem c09_old_refused_changes_state_refuted :
   exists c s r, snd (inject_old c s r) <> 200 /\ fst (inject_old c s r) <> s /\ fst (inject c s r) = s.
-Proof.
-  exists old_cfg, (sealed_init old_cfg), {| i_tls := true; i_chain := true; i_field := Some [112] |}.
-  destruct old_refused_changes_state as [A [B [C D]]]. split; [rewrite A; discriminate|]. split; [|exact D].
-  intros X. rewrite X in B. discriminate.
-Qed.
+Proof. exact old_refused_changes_state_refuted. Qed.
 
 (* Repeated injections, any sequence: at most one is answered 200, exactly one iff the server ends unsealed;
    one ready message iff unsealed. *)
